@@ -12,7 +12,10 @@ const ENTRY_BYTES: usize = size_of::<u64>() * 3;
 /// Maximum entries per block. Larger blocks mean a bigger in-memory
 /// working set before spilling, but coarser `max_cut` range granularity
 /// per root-index entry.
+#[cfg(not(aranya_verif_knobs))]
 const BLOCK_ENTRIES: usize = 256;
+#[cfg(aranya_verif_knobs)]
+const BLOCK_ENTRIES: usize = 2;
 /// Size of one block on disk.
 const BLOCK_BYTES: usize = BLOCK_ENTRIES * ENTRY_BYTES;
 /// Number of in-memory blocks retained via LRU before spilling to disk.
@@ -242,6 +245,8 @@ impl<'a, F: Spill> ConvergenceMap<'a, F> {
             return Ok(());
         }
 
+        #[cfg(aranya_verif)]
+        crate::verif::probe("conv.spill");
         let data = block.to_bytes()?;
         let num_entries = block.entries.len();
         let offset = self.next_file_offset;
@@ -290,6 +295,8 @@ impl<'a, F: Spill> ConvergenceMap<'a, F> {
 
     /// Load a spilled block into memory, evicting the LRU block.
     fn load_block_from_disk(&mut self, root_idx: usize) -> Result<usize, ClientError> {
+        #[cfg(aranya_verif)]
+        crate::verif::probe("conv.reload");
         let loaded = self.read_block_from_disk(root_idx)?;
 
         // Remove from root index — data is now in memory.
@@ -311,6 +318,8 @@ impl<'a, F: Spill> ConvergenceMap<'a, F> {
         target_max_cut: MaxCut,
     ) -> Result<(), ClientError> {
         while let Some(&top) = self.queue.peek() {
+            #[cfg(aranya_verif)]
+            crate::verif::tick();
             if top.max_cut < target_max_cut {
                 break;
             }
@@ -403,6 +412,8 @@ impl<'a, F: Spill> ConvergenceMap<'a, F> {
         {
             let mut ri = 0;
             while ri < self.storage.root.len() {
+                #[cfg(aranya_verif)]
+                crate::verif::tick();
                 let node = self.storage.root[ri];
                 if location.max_cut >= node.min_max_cut && location.max_cut <= node.max_max_cut {
                     // Load block into memory (removes root[ri] via swap_remove).
@@ -410,6 +421,8 @@ impl<'a, F: Spill> ConvergenceMap<'a, F> {
                     if let Some(ei) = self.storage.blocks[bi].find(location) {
                         return self.consume_entry(bi, ei);
                     }
+                    #[cfg(aranya_verif)]
+                    crate::verif::probe("conv.reload_miss");
                     // Don't increment ri — swap_remove moved a new entry here.
                 } else {
                     ri = ri.checked_add(1).assume("ri must not overflow")?;
